@@ -15,6 +15,8 @@ A schedule is a JSON list of ops:
   ['eof'] ['rst'] ['halfclose']
   ['teardown', code]        API-level teardown of the neighbor (Reactor.teardown_peer)
   ['reload']                configuration reload through the signal flag
+  ['reload-remove']         the same after the neighbor was taken out of the configuration file
+  ['shutdown']              the shutdown signal
   ['api', line]             a command line from the API process
 """
 
@@ -36,11 +38,11 @@ CAPS = [build.cap_mp(1, 1), build.cap_mp(2, 1), build.cap_asn4(PEER_AS), build.c
 EXTRA_CAPS: list = []
 
 
-def open_body(variant: str = 'valid', hold: int = 30) -> bytes:
+def open_body(variant: str = 'valid', hold: int = 30, without: list | None = None) -> bytes:
     rid = 0x0A000009  # higher than ours
     asn = PEER_AS
     version = 4
-    caps = list(CAPS) + list(EXTRA_CAPS)
+    caps = [c for c in list(CAPS) + list(EXTRA_CAPS) if not without or c not in without]
     params = None
     if variant == 'rid-low':
         rid = 0x0A000001
@@ -163,10 +165,10 @@ UPDATE_SOFT_FAULTS = {
 }
 
 
-def config(passive: bool = False, hold: int = 30, routes: list[str] | None = None, api: bool = True, extra: str = '', families: list[str] | None = None, mirror_as: bool = False, capability: dict | None = None) -> str:
+def config(passive: bool = False, hold: int = 30, routes: list[str] | None = None, api: bool = True, extra: str = '', families: list[str] | None = None, mirror_as: bool = False, capability: dict | None = None, api_receive: list[str] | None = None) -> str:
     body = ''
     if api:
-        body += nh.api_section(receive=['parsed', 'update', 'notification', 'open', 'keepalive', 'refresh'], send=['parsed', 'update', 'notification', 'open', 'keepalive', 'refresh'])
+        body += nh.api_section(receive=api_receive or ['parsed', 'update', 'notification', 'open', 'keepalive', 'refresh'], send=['parsed', 'update', 'notification', 'open', 'keepalive', 'refresh'])
     if routes:
         body += '\n  static {\n' + '\n'.join(f'    {r};' for r in routes) + '\n  }'
     ex = extra
@@ -193,6 +195,7 @@ class Runner:
         hn.connect_policy = lambda harness, proto: self.policy
         hn.on_outgoing = self._on_outgoing
         self.trace: list = []
+        self.remove: tuple | None = None  # (configuration file, text without the neighbor) for the 'reload-remove' op
 
     def _on_outgoing(self, remote: nh.Remote) -> None:
         self.current = remote
@@ -230,6 +233,17 @@ class Runner:
                 h.loop.note_activity()
             elif kind == 'reload':
                 h.signal_reload()
+            elif kind == 'reload-remove':
+                # the configuration file is replaced by one which no longer has the neighbor, then reloaded (needs Runner.remove)
+                path, text = self.remove
+                with open(path, 'w') as fh:
+                    fh.write(text)
+                h.signal_reload()
+            elif kind == 'shutdown':
+                from exabgp.reactor.interrupt import Signal
+
+                h.reactor.signal.received = Signal.SHUTDOWN
+                h.loop.note_activity()
             elif kind == 'api':
                 h.api_write(op[1].encode() + b'\n')
             else:
